@@ -5,7 +5,7 @@ import numpy as rnp
 
 EXPLANATION = ('C19: detector.pixel / convolvable.jitter / smear on symbolic non-negative images of every aspect ratio; numpy\'s fft2/ifft2 by their defining sums over Z_r x Z_c with exact '
                'trigonometry (sizes whose roots of unity lie in Q(sqrt2, sqrt3)); sinc and the real exponential of symbolic arguments are congruent atoms.')
-BOUNDS = {'quick': 'image shapes (r, c) with r, c in {1,2,3,4} (every aspect ratio; pixel: r*c <= 12, jitter/smear: r*c <= 6), oversample 1..3, smear angles {0, 30, 45, 90, 135} degrees, symbolic image / scale / distance / pixel scale',
+BOUNDS = {'quick': 'image shapes (r, c) with r, c in {1,2,3,4} (every aspect ratio; pixel: r*c <= 12, jitter/smear: r*c <= 6), oversample 1..3, smear angles {0, 30, 45, 90, 135} degrees plus {180, 270, -90, 360, 450} on 2x3, 3x2, 1x3 frames, symbolic image / scale / distance / pixel scale',
           'thorough': 'adds sizes 6 (r, c in {1,2,3,4,6})'}
 ASSUMPTIONS = ['image values in [0, 1] (scale of the 1e-9 tolerance of the float kernel weights)', 'pixel: "output = circular convolution" is asserted under the assumption that the convolution is non-negative (the property\'s wording)',
                'pixelate()\'s spline rescale is outside the claim', 'jitter/smear: images with a positive total; the all-zero image is the subject of its own obligation']
